@@ -4,6 +4,7 @@ import (
 	"go/ast"
 	"go/token"
 	"go/types"
+	"strings"
 
 	"golang.org/x/tools/go/types/typeutil"
 )
@@ -225,4 +226,108 @@ func ruleFoldReadsAccumulator(c *Ctx) {
 			}
 		}
 	}
+}
+
+// R1.ack-implies-effect
+func init() {
+	register(&Rule{ID: "R1.ack-implies-effect", Props: []string{"C01", "C03"}, Floor: 8,
+		Text: "the positive acknowledgement of a write command means the state was written: in every write handler, a statement that builds the positive reply (OKMessage, the RESP simple string OK, the integer 1) is reachable from the entry only through an effective mutation of persistent state or through the delegation to another write handler — path search on go/cfg with boolean correlation (the updated/ok flags), the mutation sites being those of R1.err-before-effect. A shortcut that answers OK without storing (a JSET of a value that is already there, which in the model still replaces the object and clears its deadline) acknowledges a state change that neither happened nor was logged",
+		Run:  ruleAckImpliesEffect})
+}
+
+func ruleAckImpliesEffect(c *Ctx) {
+	hs := writeHandlers(c)
+	if hs == nil {
+		c.und("engine", 0, "command tables not available")
+		return
+	}
+	nAck := 0
+	for _, h := range hs {
+		fi := c.FuncOf(h)
+		if fi == nil || fi.Decl.Body == nil {
+			continue
+		}
+		info := fi.Info()
+		fg := newFlowGraph(info, fi.Decl.Body)
+		muts := mutationSites(c, fi, fg)
+		isMut := map[ast.Node]bool{}
+		for _, m := range muts {
+			isMut[m.Block.Nodes[m.Idx]] = true
+		}
+		isAck := func(n ast.Node) ast.Node {
+			var hit ast.Node
+			inspectNoLit(n, func(m ast.Node) bool {
+				call, ok := m.(*ast.CallExpr)
+				if !ok || hit != nil {
+					return hit == nil
+				}
+				f := callee(info, call)
+				if f == nil {
+					return true
+				}
+				switch {
+				case f.Name() == "OKMessage" && f.Pkg() != nil && f.Pkg().Path() == modPath+"/internal/server":
+					hit = call
+				case f.Name() == "SimpleStringValue" && len(call.Args) == 1:
+					if tv, ok := info.Types[call.Args[0]]; ok && tv.Value != nil && tv.Value.ExactString() == `"OK"` {
+						hit = call
+					}
+				case f.Name() == "IntegerValue" && len(call.Args) == 1:
+					if tv, ok := info.Types[call.Args[0]]; ok && tv.Value != nil && tv.Value.ExactString() == "1" {
+						hit = call
+					}
+				}
+				return true
+			})
+			return hit
+		}
+		seen := map[ast.Node]bool{}
+		for _, b := range fg.G.Blocks {
+			if !fg.Reachable(b) {
+				continue
+			}
+			for _, nd := range b.Nodes {
+				ack := isAck(nd)
+				if ack == nil || seen[ack] {
+					continue
+				}
+				seen[ack] = true
+				// in the JSON arm of the reply switch every outcome is {"ok":true}: not a positive acknowledgement
+				if f := callee(info, ack.(*ast.CallExpr)); f != nil && f.Name() == "OKMessage" {
+					inJSON := false
+					for _, ft := range fg.DominatingFacts(fg.LocOf(nd)) {
+						if ft.Tag != nil && !ft.Neg && strings.HasSuffix(exprStr(ft.Tag), ".OutputType") {
+							if id, ok := ast.Unparen(ft.E).(*ast.Ident); ok && id.Name == "JSON" {
+								inJSON = true
+							}
+						}
+					}
+					if inJSON {
+						continue
+					}
+				}
+				nAck++
+				target := nd
+				reach, trail := fg.Reach(PathQuery{
+					Target:    func(l Loc) bool { return l.Block.Nodes[l.Idx] == target },
+					Avoid:     func(l Loc) bool { return isMut[l.Block.Nodes[l.Idx]] && l.Block.Nodes[l.Idx] != target },
+					Correlate: true,
+				})
+				if isMut[nd] {
+					reach = false // the acknowledgement is built in the statement that delegates or mutates
+				}
+				key := funcName(h) + "→" + exprStr(ack.(ast.Expr))
+				if reach {
+					var path []string
+					for _, n := range trail {
+						path = append(path, c.posStr(n.Pos()))
+					}
+					c.badPath(key, ack.Pos(), path, "the positive acknowledgement is built on a path on which nothing was stored: the client is told the command took effect (and the model replaces the object, clearing its deadline) although the state is unchanged and nothing is logged")
+				} else {
+					c.ok(key, ack.Pos(), true, "reachable only through an effective mutation")
+				}
+			}
+		}
+	}
+	c.stat("positive_acknowledgements", nAck)
 }
